@@ -270,23 +270,31 @@ fn gen_delegation_method<'s>(
     attr: &'s EntraitTraitAttr,
     contains_async: ContainsAsync,
 ) -> DelegatingMethod<'s> {
-    let fn_sig = &trait_fn.sig();
-    let fn_ident = &fn_sig.ident;
+    // The trait method may declare its parameters with any pattern (`_: i32`, `(a, b): (i32, i32)`),
+    // the delegating method needs plain identifiers that it can forward:
+    let mut fn_sig = trait_fn.sig().clone();
+    crate::signature::fix_fn_param_idents(&mut fn_sig);
+    let fn_ident = fn_sig.ident.clone();
     let impl_t = &generic_idents.impl_t;
 
-    let arguments = fn_sig.inputs.iter().filter_map(|arg| match arg {
-        syn::FnArg::Receiver(_) => None,
-        syn::FnArg::Typed(pat_type) => match pat_type.pat.as_ref() {
-            syn::Pat::Ident(pat_ident) => Some(pat_ident.ident.to_token_stream()),
-            _ => panic!("Found a non-ident pattern, this should be handled in signature.rs"),
-        },
-    });
+    let arguments: Vec<_> = fn_sig
+        .inputs
+        .iter()
+        .filter_map(|arg| match arg {
+            syn::FnArg::Receiver(_) => None,
+            syn::FnArg::Typed(pat_type) => match pat_type.pat.as_ref() {
+                syn::Pat::Ident(pat_ident) => Some(pat_ident.ident.to_token_stream()),
+                _ => panic!("Found a non-ident pattern, this should be handled in signature.rs"),
+            },
+        })
+        .collect();
     let core = &generic_idents.crate_idents.core;
 
     match (&attr.impl_trait, &attr.delegation_kind) {
         (Some(ImplTrait(_, impl_trait_ident)), Some(SpanOpt(Delegate::ByTrait(_), _))) => {
             DelegatingMethod {
                 trait_fn,
+                sig: fn_sig,
                 call: quote! {
                     // TODO: pass additional generic arguments(?)
                     <#impl_t::Target as #impl_trait_ident<#impl_t>>::#fn_ident(self, #(#arguments),*)
@@ -317,22 +325,29 @@ fn gen_delegation_method<'s>(
                 }
             };
 
-            DelegatingMethod { trait_fn, call }
+            DelegatingMethod {
+                trait_fn,
+                sig: fn_sig,
+                call,
+            }
         }
         (None, Some(SpanOpt(Delegate::ByRef(RefDelegate::AsRef), _))) => DelegatingMethod {
             trait_fn,
+            sig: fn_sig,
             call: quote! {
                 self.as_ref().as_ref().#fn_ident(#(#arguments),*)
             },
         },
         (None, Some(SpanOpt(Delegate::ByRef(RefDelegate::Borrow), _))) => DelegatingMethod {
             trait_fn,
+            sig: fn_sig,
             call: quote! {
                 self.as_ref().borrow().#fn_ident(#(#arguments),*)
             },
         },
         _ => DelegatingMethod {
             trait_fn,
+            sig: fn_sig,
             call: quote! {
                 self.as_ref().#fn_ident(#(#arguments),*)
             },
@@ -342,6 +357,7 @@ fn gen_delegation_method<'s>(
 
 struct DelegatingMethod<'s> {
     trait_fn: &'s TraitFn,
+    sig: syn::Signature,
     call: TokenStream,
 }
 
@@ -355,7 +371,7 @@ impl ToTokens for DelegatingMethod<'_> {
             push_tokens!(stream, attr);
         }
 
-        self.trait_fn.sig().to_tokens(stream);
+        self.sig.to_tokens(stream);
         syn::token::Brace::default().surround(stream, |stream| {
             // if self.needs_async_move && self.trait_fn.entrait_sig.associated_fut.is_some() {
             if false {
